@@ -56,6 +56,8 @@ fn palette_forms() -> Vec<Result<String, Cell>> {
         Ok("(list let (call/cc (lambda (k) k)) (lambda (x) x))".into()),
         Ok("(vector 1 car)".into()),
         Ok("(integer->char 1636)".into()),
+        Ok("2".into()),
+        Ok("16".into()),
     ]
 }
 
@@ -136,9 +138,22 @@ pub fn main(args: &[String]) -> Result<(), String> {
                 let text = format!("({} {})", name, a.join(" ")).replace(" )", ")");
                 writeln!(o, "S {}", k).map_err(|e| e.to_string())?;
                 o.flush().map_err(|e| e.to_string())?;
-                let cell = crate::enc::parse_all(&text).map_err(|e| format!("unreadable call {}: {}", text, e))?;
+                let cell = crate::enc::parse_all(&format!("(cons 'zz-mark {})", text)).map_err(|e| format!("unreadable call {}: {}", text, e))?;
                 let (oc, _) = s.eval(&cell[0], &cfg);
+                let mut shifted = false;
+                let oc = match oc {
+                    Outcome::Ok(Cell::Pair(car, cdr)) => {
+                        shifted = !matches!(car.as_ref(), Cell::Symbol(m) if m == "zz-mark");
+                        Outcome::Ok(*cdr)
+                    }
+                    // not a pair: the call invoked a continuation of the palette and the evaluation ended elsewhere
+                    Outcome::Ok(_) => oc,
+                    other => other,
+                };
                 let mut j = outcome_json(&oc);
+                if shifted {
+                    j["operands_shifted"] = json!(true);
+                }
                 // a value must be convertible to text as well
                 if let Outcome::Ok(v) = &oc {
                     if catch_unwind(AssertUnwindSafe(|| format!("{:#}", v))).is_err() {
@@ -156,13 +171,16 @@ pub fn main(args: &[String]) -> Result<(), String> {
                     s = fresh(&cfg);
                     rebuilt = true;
                 }
-                // the same VM accepts further input
+                // the same VM accepts further input: nothing of the call is left on the stack, and a probe evaluates
+                let sp_left = if rebuilt { 0 } else { s.vm.verif_stack().get_sp() };
                 let probe = crate::enc::parse_all("(car (cons (+ 20 22) '()))").unwrap();
                 let pr = match s.eval(&probe[0], &cfg).0 {
-                    Outcome::Ok(Cell::Number(Number::Fixnum(42))) => "ok",
+                    Outcome::Ok(Cell::Number(Number::Fixnum(42))) if sp_left == 0 && !shifted => "ok",
+                    Outcome::Ok(Cell::Number(Number::Fixnum(42))) if shifted => "the-call-shifted-the-operands-of-the-enclosing-application",
+                    Outcome::Ok(Cell::Number(Number::Fixnum(42))) => "stack-not-empty-after-the-call",
                     _ => "bad",
                 };
-                if pr == "bad" || s.dead {
+                if pr != "ok" || s.dead {
                     s = fresh(&cfg);
                     rebuilt = true;
                 }
@@ -277,6 +295,7 @@ const PROGRAMS: &[&str] = &[
 const TOKENS: &[&str] = &[
     "(", ")", "[", "]", "{", "}", "#(", "'", "`", ",", ",@", ".", "...", "#t", "#f", "#\\a", "#\\", "#\\x", "#\\space", "\"", "\"a\"", "\\", ";", "#|", "|#", "#;",
     "1", "-", "+", "1/2", "1/0", "#x", "#e1.5", "#i1/3", "1e400", "-0.0", "lambda", "define", "if", "quote", "let", "cond", "else", "=>", "set!", "x", "λ",
+    "-2147483648/-1", "1/-2147483648", "1/-2", "#e1/-3", "2147483648/2147483647", "-2147483648/2147483647", "#x-80000000/-1", "1/+2",
     "#\\x100000000", "#\\xFFFFFFFFFFFF", "#\\x0000000041", "\"\\x100000000;\"", "a\\x100000000;b", "#xFFFFFFFFFFFFFFFFFFFFFFFF", "-1e400", "1e-400",
     "#e1e39", "#e-1e39", "#e1e400", "#x#e10", "#b#i101", "#d#d1", "#X1F", "#E1.5", "#e#X10", "#T", "#F", "#e+inf.0", "#e-nan.0", "+nan.0", "1/2/3", "#e1/0",
     "99999999999999999999999999999999999999999", "#o777777777777777777777777", "#x-FF", "a\\x41;", "\\x;", "\\x41", "#\\x-1", "#\\xD800", "#\\x110000",
